@@ -21,6 +21,7 @@ RULE = ('A scenario is a dataset (2-30 clients, ids with trailing zero bytes, in
 DISTINCT_MEASURE = 'distinct (op-kind sequence, cohort/population ratio class, dataset kind) hashes'
 PROBES = ('backward_jump', 'restart_at_r_gt_0', 'cohort_eq_population', 'trailing_zero_id_sampled', 'stream_restart_mid_pass',
           'round_reobserved', 'two_objects_interleaved', 'global_rng_noise', 'sqlite_dataset', 'huge_round_number')
+OPTIONAL_PROBES = ('restart_in_fresh_interpreter',)
 ASSUMPTIONS = ['shuffled_clients is always given an explicit seed (seed=None is documented as non-reproducible)',
                'round numbers stay below 2**31 (PRNGKey(round))']
 REAL_VS_STUB = {
@@ -67,7 +68,12 @@ def generate(seed, tier):
     else:
       ops.append(['noise', o.randint(0, 10**6)])
   sops = [['restart', o.randint(0, cfg['stream_rounds'] - 1), o.randint(1, 4)] for _ in range(o.randint(1, 3))]
-  return {'config': cfg, 'ops': ops, 'stream_ops': sops}
+  sc = {'config': cfg, 'ops': ops, 'stream_ops': sops}
+  if g.chance(0.03):
+    # a real process restart: the cohorts of a few rounds are recomputed by a fresh interpreter started with another
+    # PYTHONHASHSEED (per-process state such as hash randomisation must not enter the sample)
+    sc['crossproc'] = {'hashseed': g.randint(1, 10**6), 'rounds': [o.choice([0, 1, 2, 3, 5, 8]) for _ in range(3)]}
+  return sc
 
 
 _N = [0]
@@ -213,6 +219,50 @@ def execute(sc):
         np.random.seed(op[1] % (2**32))
         np.random.shuffle(np.arange(10))
         pyrandom.seed(op[1])
+
+    # ---------------- a real restart in another interpreter
+    if sc.get('crossproc') and not cfg['sqlite']:
+      import json as _json
+      import subprocess
+      import sys
+      cp = sc['crossproc']
+      probes.inc('restart_in_fresh_interpreter')
+      faults.inc('process_restart_other_hash_seed')
+      child = (
+          'import sys, json, types, os\n'
+          'sys.path.insert(0, %r)\n'
+          'from vsim import boot\n'
+          'boot.boot()\n'
+          'import numpy as np, fedjax\n'
+          'from fedjax.core import client_samplers as cs\n'
+          'a = json.loads(sys.argv[1])\n'
+          'raw = {bytes.fromhex(k): {"x": np.array(v, np.int32)} for k, v in a["raw"].items()}\n'
+          'fd = fedjax.InMemoryFederatedData(raw)\n'
+          'out = {}\n'
+          'for r in a["rounds"]:\n'
+          '  s = cs.UniformGetClientSampler(fd, a["k"], a["seed"], start_round_num=r)\n'
+          '  c = s.sample()\n'
+          '  out[str(r)] = [[x[0].hex() for x in c], [np.asarray(x[2]).tobytes().hex() for x in c]]\n'
+          'print("@@" + json.dumps(out))\n') % os.path.dirname(os.path.dirname(os.path.abspath(__file__)))
+      arg = _json.dumps({'raw': {cid.hex(): raw[cid]['x'].tolist() for cid in ids}, 'k': k, 'seed': cfg['seed'],
+                         'rounds': cp['rounds']})
+      env = dict(os.environ, PYTHONHASHSEED=str(cp['hashseed']))
+      r_ = subprocess.run([sys.executable, '-c', child, arg], capture_output=True, text=True, env=env, timeout=300)
+      line = next((l for l in r_.stdout.splitlines() if l.startswith('@@')), None)
+      if line is None:
+        raise RuntimeError('cross-process probe failed: ' + r_.stderr[-500:])
+      other = _json.loads(line[2:])
+      for rr in cp['rounds']:
+        o2 = get_obj(0)
+        o2[0].set_round_num(rr)
+        o2[1] = rr + 1
+        here = observe(o2[0].sample(), f'round {rr} (this process)')
+        there = (tuple(bytes.fromhex(x) for x in other[str(rr)][0]), tuple(bytes.fromhex(x) for x in other[str(rr)][1]))
+        if here[0] != there[0]:
+          violation('purity', 'S:round-not-reproduced-after-restart-in-another-process:client-ids',
+                    f'round {rr}: this process {here[0]}, fresh interpreter (PYTHONHASHSEED={cp["hashseed"]}) {there[0]}')
+        elif here[1] != there[1]:
+          violation('purity', 'S:round-not-reproduced-after-restart-in-another-process:client-keys', f'round {rr}')
 
     # ---------------- streaming sampler
     m = cfg['stream_rounds']
